@@ -322,7 +322,9 @@ func (s *Server) Session(strm signaling.SRPCSignaling_SessionStream) error {
 		currUserped := currLocalPeer != ourPeerTkr
 		var currOpen *uint64
 		if currRemotePeer != nil {
-			currOpen = &sess.seqno
+			// Copy the seqno while holding mtx: it is compared by value below.
+			currSeqno := sess.seqno
+			currOpen = &currSeqno
 		}
 		waitCh = sess.getWaitCh()
 
@@ -349,8 +351,9 @@ func (s *Server) Session(strm signaling.SRPCSignaling_SessionStream) error {
 			return signaling.ErrUserpedSession
 		}
 
-		// Send the opened or closed message if opened or closed.
-		if prevSentOpenToLocal != currOpen {
+		// Send the opened or closed message if opened, closed, or the seqno changed.
+		if (prevSentOpenToLocal == nil) != (currOpen == nil) ||
+			(currOpen != nil && *prevSentOpenToLocal != *currOpen) {
 			var err error
 			if currOpen != nil {
 				err = strm.Send(&signaling.SessionResponse{
